@@ -407,6 +407,14 @@ func main() {
 		r.Assume("grandchildren of started processes are not tracked; background helpers always die on SIGINT (possibly 150 ms late)")
 		base := vlib.Scratch()
 		os.Chmod(base, 0o777)
+		// the batch processes may run as uid 65534: give them a copy of this binary in a place they can reach
+		// whatever the permissions of the directory this check was built in
+		batchBin := filepath.Join(base, "c04batch")
+		if b, err := os.ReadFile(os.Args[0]); err != nil || os.WriteFile(batchBin, b, 0o755) != nil {
+			r.Inconclusive("cannot copy the check binary into the scratch directory")
+			return
+		}
+		os.Chmod(batchBin, 0o755)
 		rng := r.Rand("batches")
 		nb := r.Pick(40, 600)
 		racePrefix := filepath.Join(base, "race")
@@ -454,7 +462,7 @@ func main() {
 					}
 					return nil
 				})
-				cmd := exec.Command(os.Args[0])
+				cmd := exec.Command(batchBin)
 				cmd.Env = []string{"PATH=" + os.Getenv("PATH"), "HOME=/nonexistent", "GOTMPDIR=" + gotmp, "TMPDIR=" + tmp, "C04_BATCH=" + specPath,
 					fmt.Sprintf("GOMAXPROCS=%d", []int{1, 4, 16}[(bi+len(mode))%3]), vlib.RaceEnv(racePrefix) + " atexit_sleep_ms=0"}
 				if uid != 0 {
